@@ -311,6 +311,7 @@ def run(ctx, rep_):
     loop_counter_type(F, rep_)
     loop_counter_start_kind(F, rep_)
     names_have_element_types(F, rep_)
+    void_is_not_an_element(F, rep_)
     # a name is one variable per function at run time: the declaration parsers ask for an existing binding function-wide (shared with C10)
     from props import C10 as _c10
     _c10.existence_is_asked_function_wide(F, rep_, rule="C02.scope-extent")
@@ -781,3 +782,49 @@ def names_have_element_types(F, rep, rule="C02.element-type"):
     else:
         v, info = rules.guarded_by_bool(lt, rules.ok_return_blocks(lt), [t.dst["l"] for t in tests], want=False)
     rep.ob(rule, "a written list type names at least one element type", v, str(info) if v != "ok" else "", lt.span, fn=lt.path, key=rule + "|written")
+
+
+def void_is_not_an_element(F, rep, rule="C02.void-value"):
+    """A call of a function that yields nothing has the type Void and leaves nothing on the operand stack.  Where the generator consumes
+    "the value of" a sub-expression with an instruction that needs one - `vec_op +name` for each element of a list literal requires exactly
+    one operand - the parser has to refuse a Void sub-expression, as Parser::assignment does for `x = v()` ("cannot store void").  Per sink:
+    the parser function types the sub-expression (`for_type`), tests that type against TypeLayout::Void, and no successful return is
+    reachable from the Void edge."""
+    TL = "compiler::ast::r#type::TypeLayout"
+    tl = F.adt(TL)
+    if tl is None:
+        raise AnchorMissing(TL)
+    void_i = str([v["name"] for v in tl["variants"]].index("Void"))
+    sinks = (("compiler::parser::Parser::list", "an element of a list literal `[v()]`", True),)
+    n = 0
+    for path, label, required in sinks:
+        f = F.fn(path)
+        if f is None:
+            if required:
+                raise AnchorMissing(path)
+            continue
+        n += 1
+        verdict, detail = "violated", "the element is never typed in %s: `v = fn() { }  xs = [v()]` compiles and `vec_op +` finds no operand" % mir.short(path)
+        for g in [f] + F.closures_of(f):
+            typed = [c for c in g.calls() if mir.strip_generics(c.callee() or "").endswith(("::for_type", "::for_type_force_mixed")) and c.dst]
+            if not typed:
+                continue
+            der = g.derived([c.dst["l"] for c in typed], through_call=lambda cc, idx: True)
+            sw = [(bb, base, targets, other) for bb, base, targets, other in rules.discr_switches(g, der) if TL.split("::")[-1] in g.locals[base]]
+            void_edges = set()
+            for bb, base, targets, other in sw:
+                if void_i in targets:
+                    void_edges.add((bb, targets[void_i]))
+            if not void_edges:
+                detail = "the type of the element is computed but never compared with Void"
+                continue
+            oks = set(rules.ok_return_blocks(g))
+            leak = [e for e in void_edges if oks & g.reachable(e[1])]
+            # the Void side must be a refusal; the other side must still be able to succeed
+            if not leak and oks & g.reachable(0, removed_edges=void_edges):
+                verdict, detail = "ok", ""
+            else:
+                detail = "a successful return is reachable from the Void side of the test"
+        rep.ob(rule, "%s: a sub-expression of type Void is refused (the generator's instruction needs its value)" % label, verdict, detail, f.span, fn=f.path,
+               key="%s|%s" % (rule, mir.short(path)))
+    rep.floor(rule + " sinks judged", n, 1)
